@@ -230,6 +230,9 @@ def oracle(case, res):
         return [('history-crashed:%s' % m, 'running the history raised: ' + res['crash'].strip().split('\n')[-1])]
     for kc in res.get('key_changes', []):
         out.append(('observer-changes-state_dict-keys:%s:%s' % (m, kc['observer']), 'the state_dict keys of the live %s model differ before / after %s: lost %s gained %s' % (m, kc['observer'], kc['lost'], kc['gained'])))
+    for vc in res.get('value_changes', []):
+        out.append(('observer-changes-state_dict-values:%s:%s' % (m, vc['observer']),
+                    'the state_dict VALUES of the live %s model (%s mode) differ before / after the observer call %s: %d tensors, e.g. %s' % (m, vc['mode'], vc['observer'], vc['n'], vc['changed'][:4])))
     ld = res['load']
     if res['ckpt_keys'] != res['fresh_keys']:
         miss = sorted(set(res['fresh_keys']) - set(res['ckpt_keys']))
